@@ -8,7 +8,7 @@ from ..calls import Resolver, iter_functions
 from ..engine import HOLDS, UNDECIDED, VIOLATED, Check
 from ..loader import ancestors, parent, qualname
 from ..recon import _own_nodes
-from ..rulelib import conds_sym, loop_carried, zeros_len
+from ..rulelib import atomic_facts, conds_sym, loop_carried, zeros_len
 
 LEVEL = "other"
 TECHNIQUE = ("static analysis: every loop of the package is matched against a fixed list of ranking-argument schemas "
@@ -302,26 +302,30 @@ def classify_for(chk: Check, ctx, loop):
     itxt = ast.unparse(loop.iter)
     grows = []
     for n in ast.walk(loop):
-        if isinstance(n, ast.Call) and isinstance(n.func, ast.Attribute) and n.func.attr in GROW and ast.unparse(n.func.value) == itxt:
+        if isinstance(n, ast.Call) and isinstance(n.func, ast.Attribute) and n.func.attr in GROW and (
+                ast.unparse(n.func.value) == itxt or R.expr(ctx, n.func.value, ctx.cfg.node_for(n)) == it):
             grows.append(n)
     if grows:
-        # every growth site must sit behind a `key not in seen` test whose branch also adds the key to `seen`
+        # every growth site must be reached only under `key not in seen` (an enclosing test or a guard clause in front of it),
+        # with the key recorded in `seen` under the same condition - decided on path-condition terms, not on the text
+        def absent_facts(node):
+            facts = []
+            for t, pol in atomic_facts(conds_sym(chk, ctx, node)):
+                if t[0] == "cmp" and t[1] in ("in", "notin") and ((t[1] == "notin") == pol):
+                    facts.append((t[2], t[3]))
+            return facts
+
+        records = []
+        for x in ast.walk(loop):
+            if isinstance(x, ast.Call) and isinstance(x.func, ast.Attribute) and x.func.attr in ("add", "append") and x.args:
+                records.append((x, R.expr(ctx, x.args[0], ctx.cfg.node_for(x)), R.expr(ctx, x.func.value, ctx.cfg.node_for(x))))
         ok = True
         for g in grows:
             guarded = False
-            for a in ancestors(g):
-                if a is loop:
-                    break
-                if isinstance(a, ast.If):
-                    for c in ast.walk(a.test):
-                        if isinstance(c, ast.Compare) and len(c.ops) == 1 and isinstance(c.ops[0], ast.NotIn):
-                            elem, coll = ast.unparse(c.left), ast.unparse(c.comparators[0])
-                            branch = a.body
-                            if g in [x for s in branch for x in ast.walk(s)]:
-                                for x in [y for s in branch for y in ast.walk(s)]:
-                                    if (isinstance(x, ast.Call) and isinstance(x.func, ast.Attribute) and x.func.attr in ("add", "append")
-                                            and ast.unparse(x.func.value) == coll and x.args and ast.unparse(x.args[0]) == elem):
-                                        guarded = True
+            for elem, coll in absent_facts(g):
+                for x, relem, rcoll in records:
+                    if x is not g and relem == elem and rcoll == coll and (elem, coll) in absent_facts(x):
+                        guarded = True
             ok = ok and guarded
         if ok:
             return HOLDS, ("growing iteration guarded: the iterated list is extended only for keys not seen before, and the key is "
